@@ -204,7 +204,11 @@ func newBufferedSectionWriter(w io.WriterAt, begPos, maxBytes int64,
 			if ok {
 				buf, pos = req.buf, req.pos
 				if len(buf) > 0 {
-					nBytes, err := w.WriteAt(buf, pos)
+					var nBytes int
+					nBytes, err = w.WriteAt(buf, pos)
+					if err == nil && nBytes != len(buf) {
+						err = io.ErrShortWrite
+					}
 					if err == nil && s != nil {
 						s.reportBytesWritten(uint64(nBytes))
 					}
@@ -276,8 +280,16 @@ func (b *bufferedSectionWriter) Flush() error {
 
 func (b *bufferedSectionWriter) Stop() error {
 	if b.stopCh != nil {
-		close(b.stopCh)
+		// No more requests: the writer goroutine then offers the result
+		// of its last asynchronous write, which no Flush() has picked
+		// up yet, one more time.
 		close(b.reqCh)
+		lastWrite := <-b.resCh
+		if b.err == nil {
+			b.err = lastWrite.err
+		}
+
+		close(b.stopCh)
 		<-b.doneCh
 		b.stopCh = nil
 	}
